@@ -1255,8 +1255,11 @@ class Engine:
             return self.eval_const_body(cands[0])
         # constants of external crates that have a model
         for rx, f in CONST_MODELS:
-            if rx.search(name):
-                return f(self)
+            if rx.search(t):
+                try:
+                    return f(self, t)
+                except TypeError:
+                    return f(self)
         # function item
         return FnItem(t)
 
@@ -1322,6 +1325,9 @@ class Engine:
                 if v is None:
                     v = Agg("struct", None, [])
                     cell.v = v
+                if isinstance(v, Ref) and idx == 0 and len(p) > 2 and ("Unique<" in p[2] or "NonNull<" in p[2]):
+                    # Box<T> internals (box.0: Unique<T>).0: NonNull<T>: the model's Box is the pointer itself
+                    continue
                 if isinstance(v, (Agg, EnumV)):
                     fs = v.fields
                     while len(fs) <= idx:
